@@ -1,3 +1,234 @@
-(* C09 proofs: see AllocFacts1.v ... (being rewritten for the array-heap model) *)
-From Coq Require Import NArith ZArith List Bool Lia.
+(* C09 proofs, part 1: arrays, slice headers, Go's append, analyze() on one object.
+   `frame arrs arrs' a lim`: the heap arrs' extends arrs, every old array keeps its length, every old array other
+   than `a` is unchanged and the first `lim` cells of `a` are unchanged.  append on a slice that ends at cell `lim`
+   of array `a` is such a step; so is analyze() on an object, with a = the array of its WhiteGroups header. *)
+From Coq Require Import NArith ZArith List Bool Lia Arith.
 Require Import Board Move GameOver Alloc.
+Import ListNotations.
+
+(* ---- set_nth ---- *)
+Lemma set_nth_length {A} (l : list A) i v : length (set_nth l i v) = length l.
+Proof. revert i; induction l as [|a l IH]; intros [|i]; cbn; auto. Qed.
+
+Lemma nth_error_set_nth {A} (l : list A) i v j : (i < length l)%nat ->
+  nth_error (set_nth l i v) j = if Nat.eqb j i then Some v else nth_error l j.
+Proof.
+  revert i j. induction l as [|a l IH]; intros i j Hi; cbn in Hi; [lia|].
+  destruct i as [|i], j as [|j]; cbn; auto. apply IH. lia.
+Qed.
+
+Lemma nth_set_nth {A} (l : list A) i v j d : (i < length l)%nat ->
+  nth j (set_nth l i v) d = if Nat.eqb j i then v else nth j l d.
+Proof.
+  revert i j. induction l as [|a l IH]; intros i j Hi; cbn in Hi; [lia|].
+  destruct i as [|i], j as [|j]; cbn; auto. apply IH. lia.
+Qed.
+
+Lemma firstn_set_nth {A} (l : list A) i v n : (n <= i)%nat -> firstn n (set_nth l i v) = firstn n l.
+Proof.
+  revert i n. induction l as [|a l IH]; intros [|i] [|n] H; cbn; auto; try lia. f_equal. apply IH. lia.
+Qed.
+
+Lemma skipn_set_nth {A} (l : list A) off k v : skipn off (set_nth l (off + k) v) = set_nth (skipn off l) k v.
+Proof.
+  revert l. induction off as [|off IH]; intros l; cbn; [reflexivity|].
+  destruct l as [|a l]; cbn; [destruct k; reflexivity|]. apply IH.
+Qed.
+
+Lemma firstn_S_set_nth {A} (l : list A) k v : (k < length l)%nat -> firstn (S k) (set_nth l k v) = firstn k l ++ [v].
+Proof.
+  revert l. induction k as [|k IH]; intros [|a l] H; cbn in *; try lia; auto.
+  f_equal. apply IH. lia.
+Qed.
+
+(* ---- slices ---- *)
+Definition valid (arrs : list (list N)) (r : sref) : Prop :=
+  (r_arr r < length arrs)%nat /\ (r_off r + r_len r <= length (get_arr arrs (r_arr r)))%nat.
+
+Lemma read_ref_length arrs r : valid arrs r -> length (read_ref arrs r) = r_len r.
+Proof.
+  intros [_ H]. unfold read_ref. rewrite firstn_length, skipn_length. lia.
+Qed.
+
+Lemma firstn_skipn_agree {A} (l l' : list A) lim off len : firstn lim l = firstn lim l' -> (off + len <= lim)%nat ->
+  firstn len (skipn off l) = firstn len (skipn off l').
+Proof.
+  intros H Hle.
+  rewrite !firstn_skipn_comm.
+  assert (E : forall x : list A, firstn (off + len) x = firstn (off + len) (firstn lim x)).
+  { intro x. rewrite firstn_firstn. f_equal. lia. }
+  rewrite (E l), (E l'), H. reflexivity.
+Qed.
+
+Definition frame (arrs arrs' : list (list N)) (a lim : nat) : Prop :=
+  (length arrs <= length arrs')%nat /\
+  (forall x, (x < length arrs)%nat -> length (get_arr arrs' x) = length (get_arr arrs x)) /\
+  (forall x, (x < length arrs)%nat -> x <> a -> get_arr arrs' x = get_arr arrs x) /\
+  ((a < length arrs)%nat -> firstn lim (get_arr arrs' a) = firstn lim (get_arr arrs a)).
+
+Lemma frame_refl arrs a lim : frame arrs arrs a lim.
+Proof. repeat split; auto. Qed.
+
+Lemma frame_comp arrs arrs1 arrs2 a lim a1 lim1 :
+  frame arrs arrs1 a lim -> frame arrs1 arrs2 a1 lim1 ->
+  (a1 = a /\ (lim <= lim1)%nat) \/ (length arrs <= a1)%nat ->
+  frame arrs arrs2 a lim.
+Proof.
+  intros (L1 & N1 & O1 & P1) (L2 & N2 & O2 & P2) Hc. repeat split.
+  - lia.
+  - intros x Hx. rewrite N2 by lia. apply N1; assumption.
+  - intros x Hx Hne. destruct (Nat.eq_dec x a1) as [->|Hn1].
+    + destruct Hc as [[-> _]|Hc]; [contradiction|lia].
+    + rewrite O2 by (auto; lia). apply O1; assumption.
+  - intros Ha. destruct Hc as [[-> Hl]|Hc].
+    + assert (E : forall x : list N, firstn lim x = firstn lim (firstn lim1 x)).
+      { intro x. rewrite firstn_firstn. f_equal. lia. }
+      rewrite E, P2 by lia. rewrite <- E. apply P1; assumption.
+    + rewrite O2 by lia. apply P1; assumption.
+Qed.
+
+Lemma frame_weaken arrs arrs' a lim lim' : frame arrs arrs' a lim -> (lim' <= lim)%nat -> frame arrs arrs' a lim'.
+Proof.
+  intros (L & Nn & O & P) Hl. repeat split; auto. intros Ha.
+  assert (E : forall x : list N, firstn lim' x = firstn lim' (firstn lim x)).
+  { intro x. rewrite firstn_firstn. f_equal. lia. }
+  rewrite E, P by assumption. rewrite <- E. reflexivity.
+Qed.
+
+Lemma frame_valid arrs arrs' a lim r : frame arrs arrs' a lim -> valid arrs r -> valid arrs' r.
+Proof. intros (L & Nn & _) [H1 H2]. split; [lia|]. rewrite Nn by assumption. assumption. Qed.
+
+Lemma frame_read arrs arrs' a lim r : frame arrs arrs' a lim -> valid arrs r ->
+  r_arr r <> a \/ (r_off r + r_len r <= lim)%nat -> read_ref arrs' r = read_ref arrs r.
+Proof.
+  intros (L & Nn & O & P) [H1 H2] Hc. unfold read_ref.
+  destruct (Nat.eq_dec (r_arr r) a) as [E|Hne].
+  - destruct Hc as [Hc|Hc]; [contradiction|]. rewrite E in *.
+    apply firstn_skipn_agree with (lim := lim); auto.
+  - rewrite O by assumption. reflexivity.
+Qed.
+
+Lemma get_arr_app1 arrs x y : (x < length arrs)%nat -> get_arr (arrs ++ [y]) x = get_arr arrs x.
+Proof. intros. unfold get_arr. apply app_nth1. assumption. Qed.
+Lemma get_arr_app2 arrs y : get_arr (arrs ++ [y]) (length arrs) = y.
+Proof. unfold get_arr. rewrite app_nth2, Nat.sub_diag by lia. reflexivity. Qed.
+
+Lemma frame_snoc arrs y a lim : frame arrs (arrs ++ [y]) a lim.
+Proof.
+  repeat split.
+  - rewrite app_length. lia.
+  - intros. rewrite get_arr_app1; auto.
+  - intros. apply get_arr_app1; auto.
+  - intros. rewrite get_arr_app1; auto.
+Qed.
+
+Lemma get_arr_set_nth arrs a y x : (a < length arrs)%nat ->
+  get_arr (set_nth arrs a y) x = if Nat.eqb x a then y else get_arr arrs x.
+Proof. intros. unfold get_arr. apply nth_set_nth. assumption. Qed.
+
+(* ---- append ---- *)
+Definition stays_or_fresh (arrs : list (list N)) (r r' : sref) : Prop :=
+  (r_arr r' = r_arr r /\ r_off r' = r_off r) \/ (length arrs <= r_arr r')%nat.
+
+Lemma append1_spec arrs r v : valid arrs r ->
+  let '(arrs', r') := append1 arrs r v in
+  valid arrs' r' /\ read_ref arrs' r' = read_ref arrs r ++ [v] /\
+  frame arrs arrs' (r_arr r) (r_off r + r_len r) /\ stays_or_fresh arrs r r' /\ r_len r' = S (r_len r).
+Proof.
+  intros [Ha Hb]. unfold append1.
+  destruct (r_off r + r_len r <? length (get_arr arrs (r_arr r)))%nat eqn:E.
+  - apply Nat.ltb_lt in E. set (arr := get_arr arrs (r_arr r)) in *.
+    repeat split; cbn [r_arr r_off r_len].
+    + rewrite set_nth_length. assumption.
+    + rewrite get_arr_set_nth, Nat.eqb_refl, set_nth_length by assumption. lia.
+    + unfold read_ref; cbn [r_arr r_off r_len].
+      rewrite get_arr_set_nth, Nat.eqb_refl by assumption. fold arr.
+      rewrite skipn_set_nth. apply firstn_S_set_nth. rewrite skipn_length. lia.
+    + rewrite set_nth_length. lia.
+    + intros x Hx. rewrite get_arr_set_nth by assumption.
+      destruct (Nat.eqb_spec x (r_arr r)) as [->|]; [apply set_nth_length|reflexivity].
+    + intros x Hx Hne. rewrite get_arr_set_nth by assumption.
+      destruct (Nat.eqb_spec x (r_arr r)); [contradiction|reflexivity].
+    + intros _. rewrite get_arr_set_nth, Nat.eqb_refl by assumption. apply firstn_set_nth. lia.
+    + left. split; reflexivity.
+  - apply Nat.ltb_ge in E.
+    assert (Hl : length (read_ref arrs r) = r_len r) by (apply read_ref_length; split; assumption).
+    repeat split; cbn [r_arr r_off r_len].
+    + rewrite app_length. cbn. lia.
+    + rewrite get_arr_app2. rewrite app_length. cbn. lia.
+    + unfold read_ref at 1; cbn [r_arr r_off r_len]. rewrite get_arr_app2. cbn [skipn].
+      rewrite firstn_app, Hl.
+      replace (S (r_len r) - r_len r)%nat with 1%nat by lia.
+      rewrite firstn_all2 by lia. reflexivity.
+    + rewrite app_length. lia.
+    + intros. rewrite get_arr_app1; auto.
+    + intros. apply get_arr_app1; auto.
+    + intros. rewrite get_arr_app1; auto.
+    + right. cbn. lia.
+Qed.
+
+Lemma append_all_spec vs : forall arrs r, valid arrs r ->
+  let '(arrs', r') := append_all arrs r vs in
+  valid arrs' r' /\ read_ref arrs' r' = read_ref arrs r ++ vs /\
+  frame arrs arrs' (r_arr r) (r_off r + r_len r) /\ stays_or_fresh arrs r r' /\ r_len r' = (r_len r + length vs)%nat.
+Proof.
+  induction vs as [|v vs IH]; intros arrs r Hv; cbn [append_all].
+  - split; [exact Hv|]. split; [rewrite app_nil_r; reflexivity|]. split; [apply frame_refl|].
+    split; [left; split; reflexivity|cbn; lia].
+  - pose proof (append1_spec arrs r v Hv) as H1.
+    destruct (append1 arrs r v) as [arrs1 r1].
+    destruct H1 as (V1 & R1 & F1 & S1 & L1).
+    specialize (IH arrs1 r1 V1). destruct (append_all arrs1 r1 vs) as [arrs2 r2].
+    destruct IH as (V2 & R2 & F2 & S2 & L2).
+    assert (Hlen : (length arrs <= length arrs1)%nat) by apply F1.
+    split; [exact V2|]. split; [|split; [|split]].
+    + rewrite R2, R1, <- app_assoc. reflexivity.
+    + eapply frame_comp; [exact F1|exact F2|].
+      destruct S1 as [[Ea Eo]|Hf]; [left; split; [assumption|lia]|right; assumption].
+    + destruct S2 as [[Ea Eo]|Hf].
+      * destruct S1 as [[Ea1 Eo1]|Hf1]; [left; split; congruence|right; lia].
+      * right. lia.
+    + cbn [length]. lia.
+Qed.
+
+(* ---- analyze() on one object ---- *)
+Lemma nth_error_set_obj objs i o j : (i < length objs)%nat ->
+  nth_error (set_obj objs i o) j = if Nat.eqb j i then Some o else nth_error objs j.
+Proof. apply nth_error_set_nth. Qed.
+Lemma set_obj_length objs i o : length (set_obj objs i o) = length objs.
+Proof. apply set_nth_length. Qed.
+
+Lemma analyze_obj_spec st i o : nth_error (s_objs st) i = Some o -> valid (s_arrs st) (o_wg o) ->
+  exists w b,
+    s_objs (analyze_obj st i) = set_obj (s_objs st) i {| o_pos := o_pos o; o_own := o_own o; o_wg := w; o_bg := b |} /\
+    frame (s_arrs st) (s_arrs (analyze_obj st i)) (r_arr (o_wg o)) (r_off (o_wg o)) /\
+    valid (s_arrs (analyze_obj st i)) w /\ valid (s_arrs (analyze_obj st i)) b /\
+    read_ref (s_arrs (analyze_obj st i)) w = fst (analyze_total (o_pos o)) /\
+    read_ref (s_arrs (analyze_obj st i)) b = snd (analyze_total (o_pos o)) /\
+    (r_arr w = r_arr (o_wg o) \/ (length (s_arrs st) <= r_arr w)%nat) /\
+    (r_arr b = r_arr w \/ ((length (s_arrs st) <= r_arr b)%nat /\ (r_arr w < r_arr b)%nat)).
+Proof.
+  intros Ei [Va Vb]. unfold analyze_obj. rewrite Ei.
+  destruct (analyze_total (o_pos o)) as [wgs bgs]. cbn [fst snd].
+  set (w0 := {| r_arr := r_arr (o_wg o); r_off := r_off (o_wg o); r_len := 0 |}).
+  assert (Vw0 : valid (s_arrs st) w0) by (split; cbn; [assumption|lia]).
+  pose proof (append_all_spec wgs (s_arrs st) w0 Vw0) as H1.
+  destruct (append_all (s_arrs st) w0 wgs) as [arrs1 w].
+  destruct H1 as (V1 & R1 & F1 & S1 & L1). unfold stays_or_fresh in S1. subst w0. cbn [r_arr r_off r_len] in *.
+  set (b0 := {| r_arr := r_arr w; r_off := (r_off w + r_len w)%nat; r_len := 0 |}).
+  assert (Vb0 : valid arrs1 b0) by (destruct V1; split; cbn; [assumption|lia]).
+  pose proof (append_all_spec bgs arrs1 b0 Vb0) as H2.
+  destruct (append_all arrs1 b0 bgs) as [arrs2 b].
+  destruct H2 as (V2 & R2 & F2 & S2 & L2). unfold stays_or_fresh in S2. subst b0. cbn [r_arr r_off r_len] in *.
+  exists w, b. cbn [s_objs s_arrs].
+  assert (Hlen : (length (s_arrs st) <= length arrs1)%nat) by apply F1.
+  split; [reflexivity|]. split; [|split; [|split; [exact V2|split; [|split; [|split]]]]].
+  - rewrite Nat.add_0_r in F1, F2.
+    eapply frame_comp; [exact F1|exact F2|].
+    destruct S1 as [[Ea Eo]|Hf]; [left; split; [assumption|lia]|right; assumption].
+  - exact (frame_valid _ _ _ _ w F2 V1).
+  - rewrite (frame_read _ _ _ _ w F2 V1) by (right; lia). rewrite R1. reflexivity.
+  - rewrite R2. reflexivity.
+  - destruct S1 as [[Ea _]|Hf]; [left; assumption|right; assumption].
+  - destruct S2 as [[Ea _]|Hf]; [left; assumption|right]. destruct V1. split; lia.
+Qed.
